@@ -41,13 +41,17 @@ Proof. exact seek_log. Qed.
 Print Assumptions seek_reads_the_target_record.
 
 (* a Read of n bytes at logical position lp reads only extents of records after the
-   current one that start strictly before lp + n (or the empty end-of-data extent):
-   the cost follows the chunks overlapping [lp, lp+n), not the size of the stream *)
+   current one that start strictly before lp + n (or the empty end-of-data extent) - or
+   exactly at lp + n when the record before it ends there and its decompressor returns
+   io.EOF together with its last bytes (Locality.opened, Refine.joined: the Reader then
+   moves on to the next record in the same call; chunks the Writer makes end with a sync
+   marker, which hands the bytes over before the status):
+   the cost follows the chunks overlapping [lp, lp+n], not the size of the stream *)
 Theorem read_reads_only_overlapping_records : forall data T content, honest data T content ->
   forall s n pos k, Cur data T content s pos k ->
   exists extra,
     r_log (snd (read s n)) = r_log s ++ extra /\
-    Forall (opened T k (Z.min pos (endp T)) n) extra.
+    Forall (opened data T k (Z.min pos (endp T)) n) extra.
 Proof. exact read_log. Qed.
 Print Assumptions read_reads_only_overlapping_records.
 
